@@ -6,6 +6,7 @@ use vstd::std_specs::cmp::*;
 use std::mem;
 use std::mem::replace;
 use std::fmt;
+use std::ops::Add;
 verus! {
 global layout usize is size == 8;
 //@include period.rs
